@@ -426,6 +426,13 @@ pub fn xfamily_input(fam: &str, n: usize) -> (String, String) {
         "path-dslash-star" => (chain(24), format!("//*{}", rep("//*", n))),
         "path-parent" => (chain(24), format!("//a{}", rep("/..//a", n))),
         "path-ancestor" => (chain(24), format!("//a{}", rep("/ancestor::a/descendant::a", n))),
+        // fan out and converge again without any '//': every context node must be met once per step, not once per route
+        "path-up-down" => (wide(8), format!("count(/r{})", rep("/*/..", n))),
+        "path-up-down-named" => (wide(8), format!("count(/r{})", rep("/a/parent::r", n))),
+        "path-siblings" => (wide(8), format!("count(/r/a{})", rep("/following-sibling::a/preceding-sibling::a", n))),
+        "path-attr-parent" => (format!("<r>{}</r>", rep("<a x='1' y='2' z='3'/>", 4)), format!("count(/r/a{})", rep("/@*/..", n))),
+        "path-self-chain" => (wide(8), format!("count(//a{})", rep("/self::a/.", n))),
+        "path-text-parent" => (wide(8), format!("count(/r{})", rep("/a/text()/../..", n))),
         "path-following" => (wide(24), format!("//a{}", rep("/following::a/preceding::a", n))),
         "minus" => (wide(2), format!("1{}", rep("-1", n))),
         "unary-minus" => (wide(2), format!("{}1", rep("-", n))),
@@ -445,13 +452,13 @@ pub fn xfamily_input(fam: &str, n: usize) -> (String, String) {
         _ => ("<r/>".into(), "1".into()),
     }
 }
-pub const XFAMILIES: &[&str] = &["parens", "parens-path", "calls", "not-calls", "predicates-nested", "predicates-chain", "unions", "path-child", "path-dslash", "path-dslash-star", "path-parent", "path-ancestor", "path-following", "minus", "unary-minus", "plus", "or-chain", "eq-chain", "literal", "number", "concat-args", "name-length", "doc-width", "doc-depth", "doc-pis", "open-parens", "open-brackets", "slashes"];
+pub const XFAMILIES: &[&str] = &["parens", "parens-path", "calls", "not-calls", "predicates-nested", "predicates-chain", "unions", "path-child", "path-dslash", "path-dslash-star", "path-parent", "path-ancestor", "path-up-down", "path-up-down-named", "path-siblings", "path-attr-parent", "path-self-chain", "path-text-parent", "path-following", "minus", "unary-minus", "plus", "or-chain", "eq-chain", "literal", "number", "concat-args", "name-length", "doc-width", "doc-depth", "doc-pis", "open-parens", "open-brackets", "slashes"];
 
 fn xfamily_max(fam: &str, thorough: bool) -> usize {
     match fam {
         "doc-width" | "doc-pis" => if thorough { 4096 } else { 512 },
         "doc-depth" => 512,
-        "path-dslash" | "path-dslash-star" | "path-parent" | "path-ancestor" | "path-following" => if thorough { 256 } else { 64 },
+        "path-dslash" | "path-dslash-star" | "path-parent" | "path-ancestor" | "path-following" | "path-up-down" | "path-up-down-named" | "path-siblings" | "path-attr-parent" | "path-self-chain" | "path-text-parent" => if thorough { 256 } else { 64 },
         _ => if thorough { 16384 } else { 2048 },
     }
 }
@@ -1219,6 +1226,18 @@ pub fn c19(ctx: &mut Ctx) {
         let fresh_cx = |ns: &[(String, String)]| { let mut c = XContext::default(); for (p, u) in ns { c.add_ns(Some(p.as_str()), u.as_str()); } if let Some(d) = &default_ns { c.add_ns(None, d.as_str()); } c };
         ctx.count(if default_ns.is_some() { "context/default-namespace" } else { "context/no-default-namespace" });
         let mut shared = fresh_cx(&ns);
+        // the caller may also have bound and unbound things on the way: what counts is the set of bindings now
+        if r.chance(1, 3) {
+            for _ in 0..r.range(1, 4) {
+                match r.below(4) {
+                    0 => { shared.add_ns(None, r.pick_s(&["urn:a", "urn:gone", "http://e/x"])); shared.remove_ns(None); if let Some(d) = &default_ns { shared.add_ns(None, d.as_str()); } }
+                    1 => { shared.add_ns(Some("tmp0"), "urn:tmp"); shared.remove_ns(Some("tmp0")); }
+                    2 => if let Some((p0, u0)) = ns.first() { shared.remove_ns(Some(p0.as_str())); shared.add_ns(Some(p0.as_str()), "urn:elsewhere"); shared.remove_ns(Some(p0.as_str())); shared.add_ns(Some(p0.as_str()), u0.as_str()); }
+                    _ => if let Some(d) = &default_ns { shared.remove_ns(None); shared.add_ns(None, "urn:other-default"); shared.add_ns(None, d.as_str()); }
+                }
+            }
+            ctx.count("context/with-binding-history");
+        }
         let nq = r.range(2, if ctx.thorough { 30 } else { 20 });
         let mut seq: Vec<String> = vec![];
         for q in 0..nq {
